@@ -52,7 +52,7 @@ impl Property for C13 {
         }
     }
     fn rule(&self) -> &'static str {
-        "generated crate trees (depth <= 3: name.rs / name/mod.rs, #[path] into the same and other directories, inline nesting, cfg_if! branches (also with an inline module that declares an out-of-line one), cfg_match! arms, the fallback to the declaring file's own directory, cfg_attr(path), a file reached twice, decoy files nobody declares, #[rustfmt::skip] on the declaration, inner skip, ignore entries (also one matching the root itself), @generated with format_generated_files=false, skip_children, root given as a relative or an absolute path), every file unformatted; the real binary runs in files mode on a copy; oracle: a reference model built from the Rust Reference's module file rules says which files are reachable and not excluded; the set of files whose bytes changed must equal that set, every changed file must hold exactly its own formatted text (formatted once), exit status 0; non-trivial = the tree has a decoy or an exclusion and at least 3 files; distinct by case content"
+        "generated crate trees (depth <= 3: name.rs / name/mod.rs, #[path] into the same and other directories, inline nesting, cfg_if! branches (also with an inline module that declares an out-of-line one), cfg_match! arms, the fallback to the declaring file's own directory, cfg_attr(path), a file reached twice, decoy files nobody declares, #[rustfmt::skip] on the declaration, inner skip, ignore entries (also one matching the root itself), @generated with format_generated_files=false, skip_children, root given as a relative or an absolute path), every file unformatted; the real binary runs in files mode on a copy (one case in four instead feeds the root on standard input: nothing may be written, the root's formatted text is printed); oracle: a reference model built from the Rust Reference's module file rules says which files are reachable and not excluded; the set of files whose bytes changed must equal that set, every changed file must hold exactly its own formatted text (formatted once), exit status 0; non-trivial = the tree has a decoy or an exclusion and at least 3 files; distinct by case content"
     }
     fn assumptions(&self) -> Vec<&'static str> {
         vec!["skipped / inner-skipped / ignored / @generated modules are generated as leaves (what happens to their children is not claimed)", "a file's expected text is what the same bytes give on standard input under the default configuration"]
@@ -60,7 +60,7 @@ impl Property for C13 {
     fn generate(&self, c: &mut Choices<'_>, _g: &GenCtx) -> Value {
         let t = gen_tree(c, &TreeSpace::default());
         let abs = c.flip();
-        json!({"tree": t, "abs": abs})
+        json!({"tree": t, "abs": abs, "stdin": c.chance(1, 4)})
     }
     fn run(&self, case: &Value, r: &RunCtx) -> Outcome {
         let tree: Tree = match serde_json::from_value(case["tree"].clone()) {
@@ -70,6 +70,34 @@ impl Property for C13 {
         let dir = r.tmp.join(format!("c13-{}", r.case_no));
         tree.write_to(&dir);
         let before = snapshot(&dir);
+        if case["stdin"].as_bool() == Some(true) {
+            // the root on standard input (from the root's directory): no child is visited, no file
+            // is written, and the root's formatted text is printed
+            let root_src = tree.files.iter().find(|f| f.path == tree.root).map(|f| f.content.clone()).unwrap_or_default();
+            let cwd = dir.join(&tree.root).parent().map(|p| p.to_path_buf()).unwrap_or(dir.clone());
+            let Some((code, out, err)) = run_rustfmt(r, &cwd, &[], Some(&root_src)) else {
+                let _ = std::fs::remove_dir_all(&dir);
+                return Outcome::skip("cannot-run-rustfmt");
+            };
+            let after = snapshot(&dir);
+            let _ = std::fs::remove_dir_all(&dir);
+            let mut o = Outcome::pass();
+            o.labels.push("stdin-root".into());
+            o.nontrivial = tree.files.len() >= 3;
+            if after != before {
+                let changed: Vec<&String> = before.keys().filter(|k| after.get(*k) != before.get(*k)).collect();
+                return Outcome::fail("stdin:file-changed", format!("formatting the root from standard input changed {changed:?}")).nontrivial(true);
+            }
+            let want = format_text(&root_src, &vec![]);
+            if !want.clean() {
+                return Outcome::skip("module-does-not-format");
+            }
+            // a root-ignored tree has an ignore entry in rustfmt.toml; ignore does not apply to stdin
+            if code != Some(0) || out != want.text {
+                return Outcome::fail("stdin:wrong-output", format!("exit {code:?}; stdout {out:?}\nexpected {:?}\nstderr {err}", want.text)).nontrivial(true);
+            }
+            return o;
+        }
         let mut args: Vec<String> = vec![];
         if tree.skip_children {
             args.push("--config".into());
